@@ -68,3 +68,170 @@ def unavailable_inputs(obs, step):
         elif detached or state not in ("BUILT", "CONFIRMED"):
             out.append(path)
     return out
+
+
+# ------------------------------------------------------------------------------------------
+# Well-formedness of the stored workflow (C09) and ownership (C08), from a raw connection
+# ------------------------------------------------------------------------------------------
+
+FS = {11: "UNDECLARED", 12: "UNCONFIRMED", 13: "MISSING", 14: "CONFIRMED", 15: "PLANNED",
+      16: "BUILT", 17: "OUTDATED", 18: "VOLATILE"}
+SS = {21: "PENDING", 22: "RUNNING", 23: "SUCCEEDED", 24: "FAILED", 25: "CHECKING"}
+
+
+def invariants(con, ownership=True):
+    """Return a list of (kind, message) for every violated invariant of the stored workflow."""
+    import re
+
+    out = []
+    node = {i: (kind, label, creator, bool(det)) for i, kind, label, creator, det in
+            con.execute("SELECT i, kind, label, creator, detached FROM node")}
+    key = {i: f"{n[0]}:{n[1]}" for i, n in node.items()}
+    # 1. detached iff unreachable from the root over creator links
+    children = {}
+    for i, n in node.items():
+        if n[2] is not None and n[2] != i:
+            children.setdefault(n[2], []).append(i)
+    reach, todo = set(), [i for i, n in node.items() if n[0] == "root"]
+    while todo:
+        i = todo.pop()
+        if i in reach:
+            continue
+        reach.add(i)
+        todo.extend(children.get(i, []))
+    for i, n in node.items():
+        if n[3] == (i in reach):
+            out.append(("detached-flag", f"{key[i]}: detached={n[3]} but reachable={i in reach}"))
+    # 2. dependency kinds and acyclicity
+    deps = con.execute("SELECT source, sink FROM dependency").fetchall()
+    succ = {}
+    for s, k in deps:
+        kinds = (node[s][0], node[k][0])
+        if kinds not in (("file", "step"), ("step", "file")):
+            out.append(("dependency-kinds", f"{key[s]} -> {key[k]}"))
+        succ.setdefault(s, []).append(k)
+    color = {}
+
+    def dfs(u):
+        color[u] = 1
+        for v in succ.get(u, []):
+            if color.get(v) == 1:
+                return True
+            if v not in color and dfs(v):
+                return True
+        color[u] = 2
+        return False
+
+    import sys
+    sys.setrecursionlimit(10000)
+    for u in list(succ):
+        if u not in color and dfs(u):
+            out.append(("dependency-cycle", f"cycle through {key[u]}"))
+            break
+    files = {n: (state, h) for n, state, h in con.execute("SELECT node, state, hash FROM file")}
+    steps = {r[0]: r for r in con.execute(
+        "SELECT node, state, deferred, _holding, _has_hash, need, _implied_need FROM step")}
+    hashes = {n for (n,) in con.execute("SELECT node FROM step_hash")}
+    # 3. no creator or UNDECLARED implies detached
+    for i, n in node.items():
+        if n[0] != "root" and n[2] is None and not n[3]:
+            out.append(("creatorless-attached", key[i]))
+    for n, (state, h) in files.items():
+        det = node[n][3]
+        if state == 11 and not det:
+            out.append(("undeclared-attached", key[n]))
+        # 6. hash presence
+        if state in (14, 16, 17) and h is None:
+            out.append(("hash-missing", f"{key[n]} is {FS[state]} without hash"))
+        if state in (13, 15, 18) and h is not None:
+            out.append(("hash-present", f"{key[n]} is {FS[state]} with a hash"))
+        # 4. output role iff exactly one incoming edge from its creator step (attached files)
+        if not det:
+            srcs = [s for s, k in deps if k == n]
+            if state in (15, 16, 17, 18):
+                if len(srcs) != 1 or srcs[0] != node[n][2] or node[srcs[0]][0] != "step":
+                    out.append(("output-edge", f"{key[n]} ({FS[state]}) has sources {[key[s] for s in srcs]} "
+                                f"and creator {key.get(node[n][2])}"))
+            elif srcs:
+                out.append(("static-with-source", f"{key[n]} ({FS[state]}) has sources {[key[s] for s in srcs]}"))
+    for n, (_, state, deferred, holding, has_hash, need, implied) in steps.items():
+        det = node[n][3]
+        # 5. attached SUCCEEDED step has only BUILT/VOLATILE attached outputs
+        if state == 23 and not det:
+            for s, k in deps:
+                if s == n and not node[k][3] and files[k][0] not in (16, 18):
+                    out.append(("succeeded-with-unbuilt-output", f"{key[n]} -> {key[k]} ({FS[files[k][0]]})"))
+        # 7. _has_hash iff step_hash row; FAILED has none
+        if bool(has_hash) != (n in hashes):
+            out.append(("has-hash-flag", f"{key[n]}: _has_hash={has_hash}, row={n in hashes}"))
+        if state == 24 and n in hashes:
+            out.append(("failed-with-hash", key[n]))
+        # 8. deferred implies PENDING, holding implies RUNNING
+        if deferred and state != 21:
+            out.append(("deferred-not-pending", key[n]))
+        if holding > 0 and state != 22:
+            out.append(("holding-not-running", f"{key[n]} holds {holding} in state {SS[state]}"))
+    # 9. step_need_count equals a recount
+    try:
+        counted = {(a, b): c for a, b, c in con.execute("SELECT implied_need, succeeded, n FROM step_need_count") if c}
+        recount = {}
+        for n, (_, state, *_rest, implied) in steps.items():
+            if not node[n][3]:
+                k2 = (implied, int(state == 23))
+                recount[k2] = recount.get(k2, 0) + 1
+        if counted != recount:
+            out.append(("need-count", f"step_need_count {counted} != recount {recount}"))
+    except Exception as exc:  # noqa: BLE001
+        out.append(("need-count-unreadable", repr(exc)))
+    if ownership:
+        # C08: a static tree exclusively owns the paths beneath it
+        trees = [(i, n[1]) for i, n in node.items() if n[0] == "st" and not n[3]]
+        for n, (state, _) in files.items():
+            if node[n][3]:
+                continue
+            label = node[n][1]
+            for ti, tlabel in trees:
+                if (label + "/").startswith(tlabel) and node[n][2] != ti:
+                    out.append(("tree-ownership", f"{key[n]} ({FS[state]}) lies under {tlabel} but is created by "
+                                f"{key.get(node[n][2])}"))
+        # C08: a glob pattern never matches a path that a step builds
+        products = [(node[n][1], state) for n, (state, _) in files.items()
+                    if not node[n][3] and state in (15, 16, 17, 18)]
+        for gn, pattern, regex, data in con.execute("SELECT node, pattern, regex, data FROM nglob"):
+            if node[gn][3]:
+                continue
+            rx = re.compile(regex)
+            for label, state in products:
+                if rx.fullmatch(label):
+                    out.append(("glob-matches-product", f"pattern {pattern} of {key[gn]} matches {label} ({FS[state]})"))
+    return out
+
+
+FILE_OK = {
+    (None, 11), (None, 12), (None, 15), (None, 18),
+    (13, 14), (14, 13), (12, 14), (12, 13),
+    (16, 15), (17, 15), (17, 16), (15, 16), (16, 17), (15, 17),
+}
+STEP_OK = {
+    (None, 21), (21, 22), (21, 25), (22, 23), (22, 24), (22, 21), (25, 23), (25, 21), (25, 24),
+    (23, 21), (24, 21),
+}
+
+
+def bad_transitions(log):
+    """Statement-level state changes (from the temp trigger log) outside the documented relations."""
+    out = []
+    for tbl, node, old, new in log:
+        if old == new or new is None:
+            continue
+        if tbl == "file":
+            if (old, new) in FILE_OK:
+                continue
+            # recycling through File.initialize_row may request any declarable state or UNDECLARED
+            if new in (11, 12, 15, 18):
+                continue
+            out.append(("file-transition", f"{node}: {FS.get(old)} -> {FS.get(new)}"))
+        elif tbl == "step":
+            if (old, new) not in STEP_OK:
+                out.append(("step-transition", f"{node}: {SS.get(old)} -> {SS.get(new)}"))
+    return out
